@@ -144,6 +144,11 @@ type builtHarness struct {
 
 var buildMu sync.Mutex
 
+var (
+	crashMu   sync.Mutex
+	crashSeen = map[string]bool{}
+)
+
 func buildHarness(h *Harness) (*builtHarness, error) {
 	dir := filepath.Join(scratch, "build-"+h.Name)
 	if err := os.MkdirAll(dir, 0o755); err != nil {
@@ -246,6 +251,31 @@ func makeOverlay(dir string, h *Harness) (string, error) {
 			return "", err
 		}
 	}
+	if h.Race {
+		// Under -race sync.Pool drops a random quarter of the objects put into it and joins the
+		// vector clocks of unrelated goroutines through 128 hashed addresses. Both make race
+		// detection irreproducible and hide races between tasks. The harness binary is built with a
+		// copy of sync/pool.go whose Put drops every object: no recycling across tasks, no incidental
+		// happens-before edges, deterministic.
+		out, err := exec.Command(goBin, "env", "GOROOT").Output()
+		if err != nil {
+			return "", err
+		}
+		poolSrc := filepath.Join(strings.TrimSpace(string(out)), "src", "sync", "pool.go")
+		b, err := os.ReadFile(poolSrc)
+		if err != nil {
+			return "", err
+		}
+		const pat = "if runtime_randn(4) == 0 {"
+		if strings.Count(string(b), pat) != 1 {
+			return "", fmt.Errorf("sync/pool.go: pattern %q not found exactly once", pat)
+		}
+		patched := filepath.Join(dir, "sync_pool.go")
+		if err := os.WriteFile(patched, []byte(strings.Replace(string(b), pat, "if true {", 1)), 0o644); err != nil {
+			return "", err
+		}
+		repl[poolSrc] = patched
+	}
 	b, _ := json.MarshalIndent(map[string]any{"Replace": repl}, "", " ")
 	ov := filepath.Join(dir, "overlay.json")
 	return ov, os.WriteFile(ov, b, 0o644)
@@ -330,7 +360,7 @@ func runBatch(bh *builtHarness, seed, from, count uint64, budget time.Duration, 
 	res.sum = merged
 	start := time.Now()
 	pj, _ := json.Marshal(params)
-	for attempt := 0; count > 0 && attempt < 4; attempt++ {
+	for attempt := 0; count > 0 && attempt < 2; attempt++ {
 		out := filepath.Join(scratch, fmt.Sprintf("%s-b%d-a%d.json", bh.h.Name, idx, attempt))
 		cur := out + ".cur"
 		env := map[string]string{
@@ -373,12 +403,22 @@ func runBatch(bh *builtHarness, seed, from, count uint64, budget time.Duration, 
 			return res
 		}
 		crashed, _ := strconv.ParseUint(strings.TrimSpace(string(cb)), 10, 64)
-		v, ierr := attributeCrash(bh, seed, crashed, params, stderr, exit)
-		if ierr != nil {
-			res.err = ierr
-			return res
+		bclass, bfp, bdetail := classifyCrash(stderr, exit)
+		crashMu.Lock()
+		dup := crashSeen[bh.h.Name+"|"+bclass+"|"+bfp]
+		crashSeen[bh.h.Name+"|"+bclass+"|"+bfp] = true
+		crashMu.Unlock()
+		if dup && bclass != "process-exit-1" {
+			// same crash site already attributed and minimised by another batch: count it, do not minimise again
+			res.crashes = append(res.crashes, simcore.Violation{Property: bh.h.Property, Class: bclass, Fingerprint: bfp, Detail: firstLines(bdetail, 12), Seed: seed, Run: crashed})
+		} else {
+			v, ierr := attributeCrash(bh, seed, crashed, params, stderr, exit)
+			if ierr != nil {
+				res.err = ierr
+				return res
+			}
+			res.crashes = append(res.crashes, *v)
 		}
-		res.crashes = append(res.crashes, *v)
 		merged.Runs += crashed - from + 1
 		merged.Counters["process_crashes"]++
 		count -= crashed - from + 1
@@ -426,8 +466,9 @@ func classifyCrash(stderr string, exit int) (class, fp, detail string) {
 		for i := from; i < len(lines) && len(out) < max; i++ {
 			l := strings.TrimSpace(lines[i])
 			if strings.HasPrefix(l, "github.com/dadrus/heimdall/") && !strings.Contains(l, "/verifsim/") && !strings.Contains(l, "zz_verif") && !strings.Contains(l, "Verif") {
-				fn := l
-				if j := strings.Index(fn, "("); j > 0 {
+				fn := stripGenerics(l)
+				fn = strings.TrimSuffix(strings.TrimSpace(fn), "()")
+				if j := strings.LastIndex(fn, "("); j > 0 && strings.HasSuffix(fn, ")") && !strings.Contains(fn[j:], "*") {
 					fn = fn[:j]
 				}
 				fn = strings.TrimPrefix(fn, "github.com/dadrus/heimdall/")
@@ -489,12 +530,51 @@ func attributeCrash(bh *builtHarness, seed, run uint64, params map[string]string
 	out := filepath.Join(scratch, fmt.Sprintf("%s-crash-%d.json", bh.h.Name, run))
 	pj, _ := json.Marshal(params)
 	env := map[string]string{"VERIF_OUT": out, "VERIF_SEED": fmt.Sprint(seed), "VERIF_FROM": fmt.Sprint(run), "VERIF_COUNT": "1",
-		"VERIF_RECORD": rec, "VERIF_PARAMS": string(pj), "VERIF_NOSHRINK": "1"}
-	stderr, exit, err := runBinary(bh, env, 10*time.Minute)
-	if err != nil {
-		return nil, err
+		"VERIF_RECORD": rec, "VERIF_PARAMS": string(pj), "VERIF_NOSHRINK": "1", "VERIF_REPLAY_DIR": filepath.Join(verifDir, "replays", bh.h.Property)}
+	var (
+		stderr string
+		exit   int
+		err    error
+	)
+	// The race detector keeps only four recent accesses per 8-byte word and evicts pseudo-randomly, so whether it
+	// reports a given race in a given execution is not a pure function of the schedule: the same schedule is
+	// re-executed a few times until the report reappears.
+	attempts := 1
+	if batchExit == 66 {
+		attempts = 12
+	}
+	for a := 0; a < attempts; a++ {
+		stderr, exit, err = runBinary(bh, env, 10*time.Minute)
+		if err != nil {
+			return nil, err
+		}
+		if exit != 0 {
+			break
+		}
+		if s, e := readSummary(out); e == nil && len(s.Violations) > 0 {
+			break
+		}
 	}
 	if exit == 0 {
+		// The run completes in isolation. If it reports an oracle violation itself, the batch process died while
+		// minimising that violation in-process (a shrink candidate tripped the race detector or crashed): report the
+		// violation of the isolated, unshrunk run.
+		if s, err := readSummary(out); err == nil && len(s.Violations) > 0 {
+			v := s.Violations[0]
+			return &v, nil
+		}
+		if batchExit == 66 {
+			// the race detector reported a race in the batch but not in 12 re-executions of the run: report what it printed
+			class, fp, detail := classifyCrash(batchStderr, batchExit)
+			dir := filepath.Join(verifDir, "replays", bh.h.Property)
+			os.MkdirAll(dir, 0o755)
+			path := filepath.Join(dir, fmt.Sprintf("%s-%s-seed%d-run%d-crash.json", bh.h.Property, bh.h.Name, seed, run))
+			rf := simcore.ReplayFile{Property: bh.h.Property, Harness: bh.h.Name, Seed: seed, Run: run, Params: params, Class: class, Fingerprint: fp,
+				Detail: detail, Choices: readChoices(rec), Stderr: tail(batchStderr, 8000), TraceHash: "process-crash"}
+			b, _ := json.MarshalIndent(&rf, "", " ")
+			os.WriteFile(path, b, 0o644)
+			return &simcore.Violation{Property: bh.h.Property, Class: class, Fingerprint: fp, Detail: firstLines(detail, 12), Seed: seed, Run: run, Replay: path}, nil
+		}
 		// not reproducible in isolation: that is an infrastructure problem of the simulator (nondeterminism), never reported as a violation
 		return nil, fmt.Errorf("batch died in run %d (exit %d) but the run passes in isolation: nondeterministic harness\n%s", run, batchExit, tail(batchStderr, 6000))
 	}
@@ -511,16 +591,28 @@ func attributeCrash(bh *builtHarness, seed, run uint64, params map[string]string
 	pred := func(c []int) bool {
 		writeRF(c, cand, "", "")
 		e2 := map[string]string{"VERIF_OUT": out + ".cand", "VERIF_REPLAY": cand}
-		st, ex, err := runBinary(bh, e2, 5*time.Minute)
-		if err != nil || ex == 0 {
-			return false
+		tries := 1
+		if class == "data-race" {
+			tries = 3
 		}
-		c2, f2, _ := classifyCrash(st, ex)
-		return c2 == class && f2 == fp
+		for a := 0; a < tries; a++ {
+			st, ex, err := runBinary(bh, e2, 5*time.Minute)
+			if err != nil {
+				return false
+			}
+			if ex == 0 {
+				continue
+			}
+			c2, f2, _ := classifyCrash(st, ex)
+			if c2 == class && f2 == fp {
+				return true
+			}
+		}
+		return false
 	}
 	small := choices
 	if pred(choices) {
-		small = simcore.Shrink(choices, pred, 80)
+		small = simcore.Shrink(choices, pred, 40)
 	}
 	dir := filepath.Join(verifDir, "replays", bh.h.Property)
 	os.MkdirAll(dir, 0o755)
@@ -528,6 +620,25 @@ func attributeCrash(bh *builtHarness, seed, run uint64, params map[string]string
 	writeRF(small, path, tail(stderr, 8000), "process-crash")
 	return &simcore.Violation{Property: bh.h.Property, Class: class, Fingerprint: fp, Detail: firstLines(detail, 12), Seed: seed, Run: run,
 		Replay: path, Choices: orig, Shrunk: len(small)}, nil
+}
+
+// stripGenerics removes [...] type-argument lists (which may nest and contain braces) from a frame line.
+func stripGenerics(l string) string {
+	var b strings.Builder
+	depth := 0
+	for _, c := range l {
+		switch {
+		case c == '[':
+			depth++
+		case c == ']':
+			if depth > 0 {
+				depth--
+			}
+		case depth == 0:
+			b.WriteRune(c)
+		}
+	}
+	return b.String()
 }
 
 func firstLines(s string, n int) string {
@@ -704,7 +815,9 @@ func doCheck(prop *Property, tier string, seed uint64, runsOverride int, only st
 		}
 		viol = append(viol, merged.Violations...)
 		results = append(results, hres{h: h, sum: merged, viol: viol, wall: time.Since(hstart).Seconds()})
-		os.RemoveAll(filepath.Dir(bh.bin))
+		if !keepTemp {
+			os.RemoveAll(filepath.Dir(bh.bin))
+		}
 	}
 	if len(results) == 0 {
 		infra("no harness selected")
@@ -718,7 +831,12 @@ func doCheck(prop *Property, tier string, seed uint64, runsOverride int, only st
 	nViol := 0
 	var violOut []map[string]any
 	for _, hr := range results {
-		sort.Slice(hr.viol, func(i, j int) bool { return hr.viol[i].Run < hr.viol[j].Run })
+		sort.Slice(hr.viol, func(i, j int) bool {
+			if (hr.viol[i].Replay != "") != (hr.viol[j].Replay != "") {
+				return hr.viol[i].Replay != ""
+			}
+			return hr.viol[i].Run < hr.viol[j].Run
+		})
 		for i := range hr.viol {
 			v := &hr.viol[i]
 			if v.Property != prop.ID {
@@ -872,9 +990,25 @@ func doReplay(prop *Property, path string, verbose bool) int {
 	if verbose {
 		env["VERIF_VERBOSE"] = "1"
 	}
-	stderr, exit, err := runBinary(bh, env, 15*time.Minute)
-	if err != nil {
-		infra("replay: %v", err)
+	var (
+		stderr string
+		exit   int
+	)
+	tries := 1
+	if rf.Class == "data-race" {
+		tries = 12 // see attributeCrash: the detector's report is not a pure function of the schedule
+	}
+	for a := 0; a < tries; a++ {
+		stderr, exit, err = runBinary(bh, env, 15*time.Minute)
+		if err != nil {
+			infra("replay: %v", err)
+		}
+		if exit != 0 {
+			if tries > 1 {
+				fmt.Printf("replay attempt %d of the same schedule reproduced the report\n", a+1)
+			}
+			break
+		}
 	}
 	if verbose {
 		fmt.Println(stderr)
@@ -934,7 +1068,6 @@ func doDeterminism(prop *Property, seed uint64, n int, only string) int {
 				idx++
 				go func(idx int, procs string) {
 					defer wg.Done()
-					os.Setenv("GOMAXPROCS", procs)
 					r := runBatchEnv(bh, seed, 0, uint64(n), idx, params, procs)
 					mu.Lock()
 					defer mu.Unlock()
